@@ -177,6 +177,8 @@ def const_value(k):
         return bytes(v["bytes"])
     if kind == "zst":
         return ()
+    if kind == "ptr_static":
+        return "static:" + v.get("def", "?")
     return None
 
 
